@@ -107,7 +107,7 @@ func TestC06Rapid(t *testing.T) {
 			// the L2 bank module already has display metadata for the bridged tokens (e.g. from its genesis)
 			for _, d := range []string{"uinit", "uusdc"} {
 				l2d := tcL2Denom(tc, d)
-				tc.l2.BK.SetDenomMetaData(tc.l2.Ctx, banktypes.Metadata{Base: l2d, Display: l2d, Name: "preset", Symbol: "PRE", DenomUnits: []*banktypes.DenomUnit{{Denom: l2d, Exponent: 0}}})
+				presetBankMetadata(rt, tc.l2, l2d)
 			}
 			c.Class("l2-bank-metadata-preset")
 		}
@@ -148,6 +148,11 @@ func TestC06Rapid(t *testing.T) {
 				data = signTx(tc.l2, []sdk.Msg{inner, failing}, []cryptotypes.PrivKey{ex.Priv}, []uint64{num}, []uint64{hookSeq[ex.Str]}, henv.L2ChainID)
 				hookSeq[ex.Str]++
 				c.Class("deposit-whose-hook-relays-the-next-sequence-and-fails")
+			}
+			if data == nil && rapid.IntRange(0, 5).Draw(rt, "multibyteFailure") == 0 {
+				// hook data that fails with a reason of many bytes and few characters
+				data = multibyteHookData(rapid.IntRange(20, 40).Draw(rt, "emoji"))
+				c.Class("deposit-whose-hook-fails-with-a-multibyte-reason")
 			}
 			_, p := tc.l1Deposit(from, to, coinOf(denom, amt), data)
 			if p == nil {
